@@ -26,6 +26,7 @@ class Function:
     node: ast.AST
     cls: Optional["Class"] = None
     is_property: bool = False
+    is_cached_property: bool = False
     is_setter: bool = False
     is_static: bool = False
     is_classmethod: bool = False
@@ -467,6 +468,10 @@ class Program:
             last = dn.split(".")[-1]
             if dn == "property":
                 f.is_property = True
+            elif last == "cached_property":
+                # functools.cached_property: read like a property, computed once per instance and kept in the instance dict
+                f.is_property = True
+                f.is_cached_property = True
             elif last == "setter" and "." in dn:
                 f.is_setter = True
             elif dn == "staticmethod":
